@@ -448,11 +448,15 @@ impl<'a, R: Clone> AsyncGlobalCache<'a, R> {
 
         let mut order = self.order.lock();
 
-        // Storing under an existing key replaces the old entry
-        self.remove_existing_entry(key, &mut order);
+        // Storing under an existing key replaces the old entry in place: only its queue
+        // position is dropped here and the map entry is overwritten below, so the key
+        // never disappears for concurrent lookups
+        let replacing = self.forget_queue_position(key, &mut order);
 
-        // Handle entry-count limits
-        self.handle_entry_limit_eviction(&mut order);
+        // Handle entry-count limits (replacing an entry does not change the count)
+        if !replacing {
+            self.handle_entry_limit_eviction(&mut order);
+        }
 
         // Add the new entry to the order queue
         order.push_back(key.to_string());
@@ -461,22 +465,22 @@ impl<'a, R: Clone> AsyncGlobalCache<'a, R> {
         self.cache.insert(key.to_string(), (value, timestamp, 0));
     }
 
-    /// Drops the entry currently stored under `key`, if any, together with its position in the
-    /// eviction queue, so that the value being stored replaces it through the normal insertion
-    /// path (last store wins; the entry gets a fresh timestamp, a zero frequency counter and the
-    /// most-recent position, exactly as in the sync caches).
+    /// Drops the position of `key` in the eviction queue, if any, and reports whether an entry is
+    /// currently stored under `key`.  The caller then overwrites that entry in place (last store
+    /// wins; the entry gets a fresh timestamp, a zero frequency counter and the most-recent
+    /// position, exactly as in the sync caches).
     ///
     /// # Parameters
     /// - `key`: A reference to the key being stored as a `&str`.
     /// - `order`: A mutable reference to a locked `VecDeque<String>` wrapped in a `MutexGuard`.
     ///    This represents the ordered list of keys, used to determine eviction order.
-    fn remove_existing_entry(
+    fn forget_queue_position(
         &self,
         key: &str,
         order: &mut MutexGuard<RawMutex, VecDeque<String>>,
-    ) {
-        self.cache.remove(key);
+    ) -> bool {
         order.retain(|k| k != key);
+        self.cache.contains_key(key)
     }
 
     /// Finds the key with minimum frequency for LFU eviction.
@@ -780,8 +784,8 @@ impl<'a, R: Clone + crate::MemoryEstimator> AsyncGlobalCache<'a, R> {
 
         let mut order = self.order.lock();
 
-        // Storing under an existing key replaces the old entry
-        self.remove_existing_entry(key, &mut order);
+        // Storing under an existing key replaces the old entry in place (see `insert`)
+        let replacing = self.forget_queue_position(key, &mut order);
 
         // Check memory limit first (if specified)
         if let Some(max_mem) = self.max_memory {
@@ -795,13 +799,19 @@ impl<'a, R: Clone + crate::MemoryEstimator> AsyncGlobalCache<'a, R> {
                 // 1. Don't cache it at all (skip insertion)
                 // 2. Clear all entries and cache it anyway
                 // We choose option 1 to respect the memory limit
+                // (the value it would have replaced must not be served any more)
+                if replacing {
+                    self.cache.remove(key);
+                }
                 return;
             }
 
             loop {
+                // The entry being replaced does not count: its value goes away
                 let current_mem: usize = self
                     .cache
                     .iter()
+                    .filter(|entry| entry.key().as_str() != key)
                     .map(|entry| entry.value().0.estimate_memory())
                     .sum();
 
@@ -868,8 +878,10 @@ impl<'a, R: Clone + crate::MemoryEstimator> AsyncGlobalCache<'a, R> {
             }
         }
 
-        // Handle entry-count limits (reuse the same method)
-        self.handle_entry_limit_eviction(&mut order);
+        // Handle entry-count limits (reuse the same method; replacing does not change the count)
+        if !replacing {
+            self.handle_entry_limit_eviction(&mut order);
+        }
 
         // Add the new entry to the order queue
         order.push_back(key.to_string());
